@@ -285,7 +285,22 @@ class Sim:
             par = m.parent
             if op == 'parent_remove' and par.is_arg():
                 return ('skip', op), None
-            if op in ('delete', 'parent_remove'):
+            orphaned_body = (par.kind == 'cmd' and par.name != 'item' and not par.is_arg()
+                             and any(x is m for x in par.body))
+            if orphaned_body:
+                # the parent was an \item and has been renamed: a command that is not an
+                # \item "has no children", editing its old body is the documented TypeError
+                desc = (op + '-in-renamed-item', m.ser()[:40], src)
+                expect = 'TypeError'
+                count('probe.child-of-renamed-item')
+                effect = lambda: None  # noqa: E731
+                reals, models = ([], [])
+                if op in ('replace_with', 'parent_replace'):
+                    reals, models = mat()
+                call = {'delete': lambda: h.delete(), 'parent_remove': lambda: h.parent.remove(h),
+                        'replace_with': lambda: h.replace_with(*reals),
+                        'parent_replace': lambda: h.parent.replace(h, *reals)}[op]
+            elif op in ('delete', 'parent_remove'):
                 desc = (op, m.ser()[:40], src)
 
                 def effect():
@@ -356,8 +371,8 @@ class Sim:
                         self.inserted.add(x.uid)
                 call = (lambda: h.insert(i, *reals)) if op == 'insert' else (lambda: h.append(*reals))
         elif op == 'rename':
-            if m.kind not in ('cmd', 'env') or m.name in ('item',) or m.is_arg():
-                return ('skip', op), None
+            if m.kind not in ('cmd', 'env') or m.is_arg():
+                return ('skip', op), None   # (an \item may be renamed: its body must keep printing)
             new = NAMES[c % len(NAMES)]
             if m.kind == 'env' and (m.name in docgen.MATH_ENVS or m.name in docgen.LIST_ENVS):
                 return ('skip', op), None
